@@ -454,6 +454,14 @@ def replay(prop, path):
         if v.get("cmd") in seen:
             continue
         seen.add(v.get("cmd"))
+        mode = (v.get("job") or "").split(":")[0]
+        binname = "tvs" if "/tvs " in (v.get("cmd") or "") + " " or "--bin tvs" in (v.get("cmd") or "") else "tv"
+        if mode in MODES or mode == "memcheck":
+            try:
+                build(mode, (binname,))
+            except Inconclusive as e:
+                print("INCONCLUSIVE property=%s %s" % (prop, e))
+                return 2
         print("replaying:", v.get("cmd"))
         env = base_env()
         env.update(v.get("env", {}))
